@@ -72,28 +72,45 @@ macro "by_actor" b:ident a:ident : tactic => `(tactic| (
     (try conc_gsimp)
     grind))
 
-macro "inv1_close" h1:ident h2:ident h5:ident h6:ident a:ident : tactic => `(tactic| (
+/-- like `by_actor`, trying the frame case `exact h` first when `b ≠ a` -/
+macro "by_actor_or" h:ident b:ident a:ident : tactic => `(tactic| (
+  by_cases hba : $b = $a
+  · subst hba
+    (try conc_gsimp)
+    grind
+  · have hab : ¬ $a = $b := fun h => hba h.symm
+    (try simp only [State.put, State.putS, State.finish, State.write, upd_apply, if_neg hba, if_neg hab])
+    first
+    | exact $h
+    | ((try conc_gsimp)
+       grind)))
+
+macro "inv1_close" h1:ident h2:ident h3:ident h4:ident h5:ident h6:ident a:ident : tactic => `(tactic| (
   refine ⟨fun b => ?_, fun b => ?_, ?_, ?_, fun b sid => ?_, fun b => ?_⟩
   · have hb1 := $h1 b
     clear $h1 $h2 $h5 $h6
-    by_actor b $a
+    by_actor_or hb1 b $a
   · have hb1 := $h2 b
     clear $h1 $h2 $h5 $h6
-    by_actor b $a
-  · clear $h1 $h2 $h5 $h6
-    (try conc_gsimp)
-    grind
-  · clear $h1 $h2 $h5 $h6
-    (try conc_gsimp)
-    grind
+    by_actor_or hb1 b $a
+  · first
+    | exact $h3
+    | (clear $h1 $h2 $h5 $h6
+       (try conc_gsimp)
+       grind)
+  · first
+    | exact $h4
+    | (clear $h1 $h2 $h5 $h6
+       (try conc_gsimp)
+       grind)
   · have hb1 := $h5 b sid
     have hb2 := $h6 b
     have hb3 := $h5 $a sid
     clear $h1 $h2 $h5 $h6
-    by_actor b $a
+    by_actor_or hb1 b $a
   · have hb1 := $h6 b
     clear $h1 $h2 $h5 $h6
-    by_actor b $a))
+    by_actor_or hb1 b $a))
 
 /-- dispatch lemma: a step of `step` is a step of exactly one sub-machine, with the pc known -/
 theorem step_cases {s s' : State} {a : ActorId} {c : Choice} (hs : step s a c = some s') :
